@@ -181,7 +181,7 @@ def build_machine():
                 shutil.rmtree(self.root)
             self.world = World(self.root, pool, plan.get("stub", "absent"), plan["hash_key"],
                                mirror_salt=plan["hyp_seed"] * 1000003 + CTX.session,
-                               mirror_rate=plan.get("mirror_rate", 32))
+                               mirror_rate=plan.get("mirror_rate", 32), sympy_seed=plan.get("sympy_seed", 0))
 
         @initialize(idx=st.integers(0, len(pool) - 1), name=st.sampled_from(NAMES), git=st.sampled_from([True, True, True, False]),
                     cfg_where=st.sampled_from([None, "explicit", "explicit", "pyproject"]), cfg=cfg_strategy)
@@ -343,6 +343,9 @@ def run(plan: dict) -> dict:
     CTX.scratch = Path(plan["scratch"])
     CTX.scratch.mkdir(parents=True, exist_ok=True)
     import gotranx  # noqa: F401  the system under test, imported once per worker
+    import sympy.core.random as sympy_random
+
+    sympy_random.seed(int(plan.get("sympy_seed", 0)))  # seam: sympy's own RNG belongs to the schedule
     import structlog
     import logging
 
@@ -389,7 +392,7 @@ def simplify_trace(plan: dict, best: dict, budget: int = 60) -> dict:
             return None
         runs[0] += 1
         root = CTX.scratch / ("min%04d" % runs[0])
-        w = World(root, plan["pool"], plan.get("stub", "absent"), plan["hash_key"], mirror_rate=0)
+        w = World(root, plan["pool"], plan.get("stub", "absent"), plan["hash_key"], mirror_rate=0, sympy_seed=plan.get("sympy_seed", 0))
         try:
             for op in tr:
                 w.apply(op)
@@ -434,7 +437,7 @@ def replay_trace(doc: dict, scratch: Path) -> dict:
 
     fsseam.install()
     w = World(scratch / "replay", doc["pool"], doc.get("stub", "absent"), doc.get("hash_key", "0"), all_real=True,
-              mirror_rate=0)
+              mirror_rate=0, sympy_seed=doc.get("sympy_seed", 0))
     err = None
     try:
         for op in doc["trace"]:
